@@ -800,3 +800,44 @@ class _Walker:
                 env[key] = v
             return 'fall'
         return 'fall'
+
+
+def rf10h(run):
+    rule = 'RF10h'
+    run.rule(rule, 'machinize_call, call of a variadic function: the number moved into %al derives from fp_arg_num, the counter that '
+                   'get_arg_reg advances for every argument placed in an xmm register (scalars and the SSE eightbytes of block '
+                   'arguments), capped at 8 — not from a counter advanced for scalar float/double arguments only')
+    gen = run.tu('gen')
+    f = gen.func('machinize_call')
+    run.functions_analysed.add(('gen', f.name))
+    movs = [x for x in f.walk() if x['k'] == 'CallExpr' and x.get('callee') == 'MIR_new_insn' and len(F.call_args(x)) == 4
+            and 'AX_HARD_REG' in F.src(F.call_args(x)[2]) and F.strip(F.call_args(x)[3])['k'] == 'CallExpr'
+            and F.strip(F.call_args(x)[3]).get('callee') == 'MIR_new_int_op']
+    if len(movs) != 1:
+        raise F.AnalysisBroken('machinize_call: the move into AX before a variadic call was found %d times' % len(movs))
+    src = F.strip(F.call_args(F.strip(F.call_args(movs[0])[3]))[1])
+    txt = F.src(src)
+    derived = 'fp_arg_num' in txt
+    scalar_only = False
+    if src['k'] == 'DeclRefExpr' and not derived:
+        defs = [x for x in f.walk() if x['k'] in ('BinaryOperator', 'CompoundAssignOperator', 'UnaryOperator') and x.get('op') in ('=', '+=', '++')
+                and F.src(F.strip(x['c'][0])) == src['n']]
+        derived = any(x['k'] == 'BinaryOperator' and 'fp_arg_num' in F.src(x['c'][1]) for x in defs)
+        if not derived:
+            incs = [x for x in defs if x.get('op') in ('+=', '++')]
+
+            def guard_text(x):
+                for a in f.ancestors(x):
+                    if a['k'] == 'IfStmt':
+                        return F.src(a['c'][0])
+                return ''
+            scalar_only = bool(incs) and all(('MIR_T_F' in guard_text(x) or 'MIR_T_D' in guard_text(x)) for x in incs)
+            if not scalar_only:
+                raise F.AnalysisBroken('machinize_call: the origin of the %%al value (%s) is not classified' % txt)
+    ok = derived
+    run.ob(rule, ('al',), ok, {'value moved into AX': txt, 'derived from the xmm register counter': derived})
+    if not ok:
+        run.violation(rule, f, 'vector register count in %al', 'the value moved into %%al (%s) is advanced for scalar float/double arguments '
+                      'only: a by-value struct passed in xmm registers is not counted, so a variadic callee may not save the vector '
+                      'registers it is about to read' % txt, line=movs[0]['l'])
+    run.min_instances(rule, 1)
